@@ -334,6 +334,7 @@ Definition fexec (t : ftable) (m : fm) (o : fm_op) : option (fm * fm_out) :=
       | Some (m', RThrow) => Some (m', OThrow)
       | _ => None
       end
+  | FCopy => Some (m, OUnit)      (* implicit members have no body to extract: std::vector's copy is a value copy *)
   | FAtIndexC i =>
       match fcall t MAtIndexC m i with
       | Some (m', RRefItem j) => match nth_error m' j with Some kv => Some (m', OItem (fst kv) (snd kv)) | None => None end
